@@ -17,6 +17,23 @@ for line in p.stdout.decode("utf-8", "replace").split("\n"):
         passed.add(o["Package"] + "::" + o["Test"])
 base = json.load(open("/root/.vp/BASELINE.json"))["stable_pass"]
 missing = [t for t in base if t not in passed]
+# load-sensitive tests (20 ms sleeps, "running too slowly" self-checks) flake on a busy machine: re-run the missing ones alone, twice at most
+for attempt in range(2):
+    if not missing or len(missing) > 12:
+        break
+    for t in list(missing):
+        pkg, name = t.split("::", 1)
+        rx = "/".join("^%s$" % x.replace("#", ".") for x in name.split("/"))
+        q = subprocess.run(["go", "test"] + extra + ["-json", "-vet=off", "-count=1", "-timeout", "20m", "-run", rx, pkg], cwd=repo, env=env,
+                           stdout=subprocess.PIPE, stderr=subprocess.DEVNULL)
+        for line in q.stdout.decode("utf-8", "replace").split("\n"):
+            try:
+                o = json.loads(line)
+            except Exception:
+                continue
+            if o.get("Action") == "pass" and o.get("Test"):
+                passed.add(o["Package"] + "::" + o["Test"])
+    missing = [t for t in base if t not in passed]
 print("stable_pass:", len(base), "passed now:", len(passed), "missing:", len(missing))
 for t in missing[:20]:
     print("  MISSING", t)
